@@ -11,8 +11,10 @@ import (
 	"google.golang.org/protobuf/encoding/protojson"
 	"google.golang.org/protobuf/encoding/prototext"
 	"google.golang.org/protobuf/proto"
+	"google.golang.org/protobuf/reflect/protodesc"
 	"google.golang.org/protobuf/reflect/protoreflect"
 	"google.golang.org/protobuf/runtime/protoimpl"
+	"google.golang.org/protobuf/types/descriptorpb"
 	"google.golang.org/protobuf/types/dynamicpb"
 	"google.golang.org/protobuf/verif/core"
 	"google.golang.org/protobuf/verif/gen"
@@ -20,15 +22,15 @@ import (
 
 func init() {
 	core.Register(&core.Check{
-		ID: "C46",
-		Rule: "cases: the twelve historical generations of the legacy test schema (6 x proto2, 6 x proto3; github.com/golang/protobuf-era generated code wrapped by the runtime) and four hand-written struct-tag-only message types (every tag form: varint/zigzag32/zigzag64/fixed32/fixed64/bytes/group, opt/req/rep, packed, def=, enum=, oneof=, protobuf_key/protobuf_val maps, proto3): one logical content (PRNG, keyed by field number) is placed into every generation through protoreflect and through the exported Go struct fields (reflect, by protobuf tag, incl. oneof wrapper structs); oracle: identical deterministic bytes across generations and routes and equal to dynamicpb of the derived descriptor, equal reflection snapshot, JSON and text vs the dynamicpb twin, every generation decodes every other's bytes to the same content, struct fields read back through reflect agree with protoreflect Get, derived message descriptors of all generations agree accessor by accessor (generation names masked); distinct = distinct (type, content bytes); non-trivial = at least one populated field",
+		ID:     "C46",
+		Rule:   "cases: the twelve historical generations of the legacy test schema (6 x proto2, 6 x proto3; github.com/golang/protobuf-era generated code wrapped by the runtime) and five hand-written struct-tag-only message types, one with three oneofs interleaved with plain fields (every tag form: varint/zigzag32/zigzag64/fixed32/fixed64/bytes/group, opt/req/rep, packed, def=, enum=, oneof=, protobuf_key/protobuf_val maps, proto3): one logical content (PRNG, keyed by field number) is placed into every generation through protoreflect and through the exported Go struct fields (reflect, by protobuf tag, incl. oneof wrapper structs); oracle: identical deterministic bytes across generations and routes and equal to dynamicpb of the derived descriptor, equal reflection snapshot, JSON and text vs the dynamicpb twin, every generation decodes every other's bytes to the same content, struct fields read back through reflect agree with protoreflect Get, derived message descriptors of all generations agree accessor by accessor (generation names masked, oneof indices and membership included); the descriptor derived from the three-oneof struct equals a hand-written schema line by line, and wire, JSON and text written by a dynamicpb message of that hand-written schema (contents setting several oneofs at once) are read by the struct-tag-only type to the same content and back; distinct = distinct (type, content bytes); non-trivial = at least one populated field",
 		Assume: []string{"dynamicpb of the derived descriptor as the reference implementation", "reflect-based struct-field driver shared with C29"},
 		Batches: func(tier string) []core.Batch {
 			bs := stdBatches([]string{"base"}, 6)
 			return append(bs, core.Batch{Cfg: "base", Name: "tagonly", Kind: "tagonly"}, core.Batch{Cfg: "legacy", Name: "tagonly-legacy", Kind: "tagonly"})
 		},
 		Gates: func(tier string) map[string]int64 {
-			return map[string]int64{"generations": 12, "families": 10, "contents": 150, "built_via_reflection": 900, "built_via_struct_fields": 900, "struct_fields_set": 20000, "cross_generation_decodes": 6000, "dynamic_twin_compares": 1500, "struct_reads": 20000, "descriptor_compares": 50, "tagonly_contents": 500, "tagonly_types": 3}
+			return map[string]int64{"generations": 12, "families": 10, "contents": 150, "built_via_reflection": 900, "built_via_struct_fields": 900, "struct_fields_set": 20000, "cross_generation_decodes": 6000, "dynamic_twin_compares": 1500, "struct_reads": 20000, "descriptor_compares": 50, "tagonly_contents": 500, "tagonly_types": 4, "independent_descriptor_compares": 1, "independent_contents_with_two_oneofs_set": 100, "independent_decodes:wire": 120, "independent_decodes:json": 120, "independent_decodes:text": 120}
 		},
 		Run: runC46,
 	})
@@ -128,13 +130,24 @@ func c46DescLines(md protoreflect.MessageDescriptor) []string {
 				line += " def=" + fmt.Sprint(f.Default().Interface())
 			}
 			if f.ContainingOneof() != nil {
-				line += " oneof=" + string(f.ContainingOneof().Name())
+				line += fmt.Sprintf(" oneof=%s@%d", f.ContainingOneof().Name(), f.ContainingOneof().Index())
 			}
 			if f.Enum() != nil {
 				line += fmt.Sprintf(" enum=%s values=%d", f.Enum().FullName(), f.Enum().Values().Len())
 			}
 			if f.Message() != nil {
 				line += " msg=" + string(f.Message().FullName())
+			}
+			out = append(out, line)
+		}
+		for i := 0; i < md.Oneofs().Len(); i++ {
+			o := md.Oneofs().Get(i)
+			line := fmt.Sprintf(" oneof[%d] %s index=%d synthetic=%v members=", i, o.Name(), o.Index(), o.IsSynthetic())
+			for j := 0; j < o.Fields().Len(); j++ {
+				line += fmt.Sprintf("%s#%d,", o.Fields().Get(j).Name(), o.Fields().Get(j).Number())
+			}
+			if md.Oneofs().ByName(o.Name()) != o {
+				line += " BYNAME-MISMATCH"
 			}
 			out = append(out, line)
 		}
@@ -355,27 +368,27 @@ func (*TagInner) String() string { return "TagInner" }
 func (*TagInner) ProtoMessage()  {}
 
 type TagOnly2 struct {
-	OptInt32    *int32            `protobuf:"varint,1,opt,name=opt_int32,json=optInt32"`
-	OptSint32   *int32            `protobuf:"zigzag32,2,opt,name=opt_sint32"`
-	OptSint64   *int64            `protobuf:"zigzag64,3,opt,name=opt_sint64"`
-	OptFixed32  *uint32           `protobuf:"fixed32,4,opt,name=opt_fixed32"`
-	OptSfixed64 *int64            `protobuf:"fixed64,5,opt,name=opt_sfixed64"`
-	OptFloat    *float32          `protobuf:"fixed32,6,opt,name=opt_float"`
-	OptDouble   *float64          `protobuf:"fixed64,7,opt,name=opt_double,def=1.5"`
-	OptString   *string           `protobuf:"bytes,8,opt,name=opt_string,def=hello"`
-	OptBytes    []byte            `protobuf:"bytes,9,opt,name=opt_bytes"`
-	OptBool     *bool             `protobuf:"varint,10,opt,name=opt_bool,def=1"`
-	ReqUint64   *uint64           `protobuf:"varint,11,req,name=req_uint64"`
-	RepInt64    []int64           `protobuf:"varint,12,rep,name=rep_int64"`
-	PackedSint  []int32           `protobuf:"zigzag32,13,rep,packed,name=packed_sint"`
-	PackedFix   []uint64          `protobuf:"fixed64,14,rep,packed,name=packed_fix"`
-	RepString   []string          `protobuf:"bytes,15,rep,name=rep_string"`
-	Inner       *TagInner         `protobuf:"bytes,16,opt,name=inner"`
-	RepInner    []*TagInner       `protobuf:"bytes,17,rep,name=rep_inner"`
-	Group       *TagInner         `protobuf:"group,18,opt,name=Group,json=group"`
-	MapSI       map[string]int32  `protobuf:"bytes,19,rep,name=map_si" protobuf_key:"bytes,1,opt,name=key" protobuf_val:"zigzag32,2,opt,name=value"`
-	MapIM       map[int64]*TagInner `protobuf:"bytes,20,rep,name=map_im" protobuf_key:"fixed64,1,opt,name=key" protobuf_val:"bytes,2,opt,name=value"`
-	OptUint32   *uint32           `protobuf:"varint,70,opt,name=opt_uint32,def=7"`
+	OptInt32         *int32              `protobuf:"varint,1,opt,name=opt_int32,json=optInt32"`
+	OptSint32        *int32              `protobuf:"zigzag32,2,opt,name=opt_sint32"`
+	OptSint64        *int64              `protobuf:"zigzag64,3,opt,name=opt_sint64"`
+	OptFixed32       *uint32             `protobuf:"fixed32,4,opt,name=opt_fixed32"`
+	OptSfixed64      *int64              `protobuf:"fixed64,5,opt,name=opt_sfixed64"`
+	OptFloat         *float32            `protobuf:"fixed32,6,opt,name=opt_float"`
+	OptDouble        *float64            `protobuf:"fixed64,7,opt,name=opt_double,def=1.5"`
+	OptString        *string             `protobuf:"bytes,8,opt,name=opt_string,def=hello"`
+	OptBytes         []byte              `protobuf:"bytes,9,opt,name=opt_bytes"`
+	OptBool          *bool               `protobuf:"varint,10,opt,name=opt_bool,def=1"`
+	ReqUint64        *uint64             `protobuf:"varint,11,req,name=req_uint64"`
+	RepInt64         []int64             `protobuf:"varint,12,rep,name=rep_int64"`
+	PackedSint       []int32             `protobuf:"zigzag32,13,rep,packed,name=packed_sint"`
+	PackedFix        []uint64            `protobuf:"fixed64,14,rep,packed,name=packed_fix"`
+	RepString        []string            `protobuf:"bytes,15,rep,name=rep_string"`
+	Inner            *TagInner           `protobuf:"bytes,16,opt,name=inner"`
+	RepInner         []*TagInner         `protobuf:"bytes,17,rep,name=rep_inner"`
+	Group            *TagInner           `protobuf:"group,18,opt,name=Group,json=group"`
+	MapSI            map[string]int32    `protobuf:"bytes,19,rep,name=map_si" protobuf_key:"bytes,1,opt,name=key" protobuf_val:"zigzag32,2,opt,name=value"`
+	MapIM            map[int64]*TagInner `protobuf:"bytes,20,rep,name=map_im" protobuf_key:"fixed64,1,opt,name=key" protobuf_val:"bytes,2,opt,name=value"`
+	OptUint32        *uint32             `protobuf:"varint,70,opt,name=opt_uint32,def=7"`
 	XXX_unrecognized []byte
 }
 
@@ -401,8 +414,211 @@ func (*TagOnly3) Reset()         {}
 func (*TagOnly3) String() string { return "TagOnly3" }
 func (*TagOnly3) ProtoMessage()  {}
 
+// TagOnly4: three oneofs interleaved with plain fields.
+type TagOnly4 struct {
+	Before           *int32            `protobuf:"varint,1,opt,name=before"`
+	First            isTagOnly4_First  `protobuf_oneof:"first"`
+	Mid              *string           `protobuf:"bytes,5,opt,name=mid"`
+	Second           isTagOnly4_Second `protobuf_oneof:"second"`
+	After            *uint32           `protobuf:"varint,9,opt,name=after"`
+	Third            isTagOnly4_Third  `protobuf_oneof:"third"`
+	XXX_unrecognized []byte
+}
+
+type isTagOnly4_First interface{ isTagOnly4_First() }
+type isTagOnly4_Second interface{ isTagOnly4_Second() }
+type isTagOnly4_Third interface{ isTagOnly4_Third() }
+
+type TagOnly4_A1 struct {
+	A1 int32 `protobuf:"varint,2,opt,name=a1,oneof"`
+}
+type TagOnly4_A2 struct {
+	A2 string `protobuf:"bytes,3,opt,name=a2,oneof"`
+}
+type TagOnly4_A3 struct {
+	A3 *TagInner `protobuf:"bytes,4,opt,name=a3,oneof"`
+}
+type TagOnly4_B1 struct {
+	B1 bool `protobuf:"varint,6,opt,name=b1,oneof"`
+}
+type TagOnly4_B2 struct {
+	B2 []byte `protobuf:"bytes,7,opt,name=b2,oneof"`
+}
+type TagOnly4_B3 struct {
+	B3 int64 `protobuf:"zigzag64,8,opt,name=b3,oneof"`
+}
+type TagOnly4_C1 struct {
+	C1 float64 `protobuf:"fixed64,10,opt,name=c1,oneof"`
+}
+type TagOnly4_C2 struct {
+	C2 uint32 `protobuf:"varint,11,opt,name=c2,oneof"`
+}
+
+func (*TagOnly4_A1) isTagOnly4_First()  {}
+func (*TagOnly4_A2) isTagOnly4_First()  {}
+func (*TagOnly4_A3) isTagOnly4_First()  {}
+func (*TagOnly4_B1) isTagOnly4_Second() {}
+func (*TagOnly4_B2) isTagOnly4_Second() {}
+func (*TagOnly4_B3) isTagOnly4_Second() {}
+func (*TagOnly4_C1) isTagOnly4_Third()  {}
+func (*TagOnly4_C2) isTagOnly4_Third()  {}
+
+func (*TagOnly4) Reset()         {}
+func (*TagOnly4) String() string { return "TagOnly4" }
+func (*TagOnly4) ProtoMessage()  {}
+func (*TagOnly4) XXX_OneofWrappers() []interface{} {
+	return []interface{}{(*TagOnly4_A1)(nil), (*TagOnly4_A2)(nil), (*TagOnly4_A3)(nil), (*TagOnly4_B1)(nil), (*TagOnly4_B2)(nil), (*TagOnly4_B3)(nil), (*TagOnly4_C1)(nil), (*TagOnly4_C2)(nil)}
+}
+
+// tagOnly4Schema is the schema TagOnly4's tags spell, written down by hand
+// (not derived from the struct): the independent side of the comparison.
+const tagOnly4Schema = `
+name: "verifind/tagonly4.proto" package: "verifind" syntax: "proto2"
+message_type { name: "TagInner"
+  field { name: "a" number: 1 label: LABEL_OPTIONAL type: TYPE_INT32 json_name: "a" }
+  field { name: "s" number: 2 label: LABEL_REPEATED type: TYPE_STRING json_name: "s" } }
+message_type { name: "TagOnly4"
+  field { name: "before" number: 1 label: LABEL_OPTIONAL type: TYPE_INT32 json_name: "before" }
+  field { name: "a1" number: 2 label: LABEL_OPTIONAL type: TYPE_INT32 oneof_index: 0 json_name: "a1" }
+  field { name: "a2" number: 3 label: LABEL_OPTIONAL type: TYPE_STRING oneof_index: 0 json_name: "a2" }
+  field { name: "a3" number: 4 label: LABEL_OPTIONAL type: TYPE_MESSAGE type_name: ".verifind.TagInner" oneof_index: 0 json_name: "a3" }
+  field { name: "mid" number: 5 label: LABEL_OPTIONAL type: TYPE_STRING json_name: "mid" }
+  field { name: "b1" number: 6 label: LABEL_OPTIONAL type: TYPE_BOOL oneof_index: 1 json_name: "b1" }
+  field { name: "b2" number: 7 label: LABEL_OPTIONAL type: TYPE_BYTES oneof_index: 1 json_name: "b2" }
+  field { name: "b3" number: 8 label: LABEL_OPTIONAL type: TYPE_SINT64 oneof_index: 1 json_name: "b3" }
+  field { name: "after" number: 9 label: LABEL_OPTIONAL type: TYPE_UINT32 json_name: "after" }
+  field { name: "c1" number: 10 label: LABEL_OPTIONAL type: TYPE_DOUBLE oneof_index: 2 json_name: "c1" }
+  field { name: "c2" number: 11 label: LABEL_OPTIONAL type: TYPE_UINT32 oneof_index: 2 json_name: "c2" }
+  oneof_decl { name: "first" } oneof_decl { name: "second" } oneof_decl { name: "third" } }
+`
+
+var reAberrantPkg = regexp.MustCompile(`(google_golang_org[A-Za-z0-9_.]*\.|verifind\.)`)
+
+// c46Independent compares the descriptor derived from TagOnly4's struct tags,
+// and the type's behaviour on contents setting several oneofs at once, with a
+// dynamicpb message of the hand-written schema.
+func c46Independent(c *core.Ctx, mt protoreflect.MessageType) {
+	fdp := &descriptorpb.FileDescriptorProto{}
+	if err := prototext.Unmarshal([]byte(tagOnly4Schema), fdp); err != nil {
+		c.Violation("harness:tagonly4-schema-unparsable", map[string]any{"err": errStr(err)})
+		return
+	}
+	fd, err := protodesc.NewFile(fdp, nil)
+	if err != nil {
+		c.Violation("harness:tagonly4-schema-invalid", map[string]any{"err": errStr(err)})
+		return
+	}
+	ind := fd.Messages().ByName("TagOnly4")
+	mask := func(ls []string) []string {
+		for i := range ls {
+			ls[i] = reAberrantPkg.ReplaceAllString(ls[i], "")
+		}
+		return ls
+	}
+	want, got := mask(c46DescLines(ind)), mask(c46DescLines(mt.Descriptor()))
+	c.Count("independent_descriptor_compares")
+	for i := 0; i < len(want) || i < len(got); i++ {
+		w, g := "", ""
+		if i < len(want) {
+			w = want[i]
+		}
+		if i < len(got) {
+			g = got[i]
+		}
+		if w != g {
+			c.Violation("tagonly:derived-descriptor-differs-from-handwritten-schema", map[string]any{"handwritten": w, "derived": g})
+			break
+		}
+	}
+	per := c.Scale(300, 4000)
+	for k := 0; k < per; k++ {
+		r := c.Rng(uint64(0x46)<<32 | uint64(k))
+		fo := fillOptsFor(k)
+		fo.Unknown = false
+		fo.ByNumber = true
+		content := dynamicpb.NewMessage(ind)
+		gen.Fill(r, content, fo)
+		ref, err := detBytes(content)
+		if err != nil {
+			continue
+		}
+		c.Eval()
+		c.Count("independent_contents")
+		nset := 0
+		for i := 0; i < ind.Oneofs().Len(); i++ {
+			if content.WhichOneof(ind.Oneofs().Get(i)) != nil {
+				nset++
+			}
+		}
+		if nset >= 2 {
+			c.Count("independent_contents_with_two_oneofs_set")
+		}
+		c.DistinctBytes([]byte("ind"), ref)
+		c.Log("C46 independent content=%s", core.Hex(ref))
+		d := map[string]any{"content": core.Hex(ref), "oneofs_set": nset}
+		jb, e1 := protojson.MarshalOptions{AllowPartial: true}.Marshal(content)
+		tb, e2 := prototext.MarshalOptions{AllowPartial: true}.Marshal(content)
+		if e1 != nil || e2 != nil {
+			continue
+		}
+		// wire, JSON and text written by the handwritten-schema message are read by the tag-only type
+		type route struct {
+			name string
+			dec  func(m proto.Message) error
+		}
+		for _, rt := range []route{
+			{"wire", func(m proto.Message) error { return proto.UnmarshalOptions{AllowPartial: true}.Unmarshal(ref, m) }},
+			{"json", func(m proto.Message) error { return protojson.UnmarshalOptions{AllowPartial: true}.Unmarshal(jb, m) }},
+			{"text", func(m proto.Message) error { return prototext.UnmarshalOptions{AllowPartial: true}.Unmarshal(tb, m) }},
+		} {
+			m := mt.New()
+			var derr error
+			if !c.NoPanic("tagonly:independent-panic:"+rt.name, d, func() { derr = rt.dec(m.Interface()) }) {
+				continue
+			}
+			c.Count("independent_decodes:" + rt.name)
+			if derr != nil {
+				dd := map[string]any{"content": core.Hex(ref), "oneofs_set": nset, "err": errStr(derr), "json": clip(string(jb), 600), "text": clip(string(tb), 600)}
+				c.Violation("tagonly:rejects-output-of-handwritten-schema:"+rt.name, dd)
+				continue
+			}
+			// the expected content is what the handwritten schema reads from the same input
+			// (JSON and text do not carry NaN payloads)
+			exp := dynamicpb.NewMessage(ind)
+			if rt.dec(exp) != nil {
+				continue
+			}
+			expBytes, _ := detBytes(exp)
+			enc, err := detBytes(m)
+			if err != nil || !bytes.Equal(enc, expBytes) {
+				dd := map[string]any{"content": core.Hex(ref), "got": core.Hex(enc), "want": core.Hex(expBytes), "route": rt.name}
+				c.Violation("tagonly:content-differs-from-handwritten-schema:"+rt.name, dd)
+				continue
+			}
+			// and back: its JSON / text are read by the handwritten schema
+			j2, e1 := protojson.MarshalOptions{AllowPartial: true}.Marshal(m.Interface())
+			t2, e2 := prototext.MarshalOptions{AllowPartial: true}.Marshal(m.Interface())
+			back := dynamicpb.NewMessage(ind)
+			if e1 != nil || (protojson.UnmarshalOptions{AllowPartial: true}).Unmarshal(j2, back) != nil || !proto.Equal(back, exp) {
+				c.Violation("tagonly:json-not-read-back-by-handwritten-schema:"+rt.name, map[string]any{"content": core.Hex(ref), "json": clip(string(j2), 600)})
+			}
+			back = dynamicpb.NewMessage(ind)
+			if e2 != nil || (prototext.UnmarshalOptions{AllowPartial: true}).Unmarshal(t2, back) != nil || !proto.Equal(back, exp) {
+				c.Violation("tagonly:text-not-read-back-by-handwritten-schema:"+rt.name, map[string]any{"content": core.Hex(ref), "text": clip(string(t2), 600)})
+			}
+			// WhichOneof agrees oneof by oneof
+			for i := 0; i < ind.Oneofs().Len() && i < m.Descriptor().Oneofs().Len(); i++ {
+				a, b := content.WhichOneof(ind.Oneofs().Get(i)), m.WhichOneof(m.Descriptor().Oneofs().Get(i))
+				if (a == nil) != (b == nil) || (a != nil && a.Number() != b.Number()) {
+					c.Violation("tagonly:whichoneof-differs-from-handwritten-schema", map[string]any{"content": core.Hex(ref), "oneof": i})
+				}
+			}
+		}
+	}
+}
+
 func c46TagOnly(c *core.Ctx) {
-	types := []any{&TagInner{}, &TagOnly2{}, &TagOnly3{}, &TagOnly2{}}
+	types := []any{&TagInner{}, &TagOnly2{}, &TagOnly3{}, &TagOnly2{}, &TagOnly4{}}
 	seen := map[string]bool{}
 	for ti, zero := range types {
 		var mt protoreflect.MessageType
@@ -455,6 +671,9 @@ func c46TagOnly(c *core.Ctx) {
 					c.Violation("tagonly:derived-default:"+fname, nil)
 				}
 			}
+		}
+		if _, ok := zero.(*TagOnly4); ok {
+			c46Independent(c, mt)
 		}
 		per := c.Scale(200, 4000)
 		for k := 0; k < per; k++ {
